@@ -108,7 +108,7 @@ def compaction(seed=0):
     return _result("conformance:compact.json through compact/uncompact", n, bad)
 
 
-def hilbert(seed=0, full=False):
+def hilbert(seed=0, full=False, part=None, parts=1):
     """the indices of tests/core/test_hilbert.py through the merged s_to_anchor (pinned s)."""
     from . import c18
     import a5.core.hilbert as hh
@@ -120,6 +120,9 @@ def hilbert(seed=0, full=False):
     else:
         cases = [(s, 20, o) for k, o in enumerate(c18.ORIENTATIONS) for s in idx[k::6][:1]]
         cases += [(s, 3, o) for s in range(0, 64, 7) for o in ("uv", "wu", "vw")]
+
+    if part is not None:
+        cases = cases[part::parts]
 
     def h(c, hlev, o):
         H = c18.install_merged()
